@@ -170,6 +170,9 @@ func (pc *propConfig) run(prop string, g *G, idx funcIndex, cs *contractSet, out
 			assumes[a.Text] = true
 		}
 	}
+	for _, a := range entryAssumptions(g, idx, keys) {
+		assumes[a] = true
+	}
 	sort.SliceStable(all, func(i, j int) bool { return all[i].Name < all[j].Name })
 	timeout := 20000
 	if thorough {
